@@ -101,12 +101,12 @@ type site struct {
 }
 
 type pkg struct {
-	dir      string
-	funcs    []*fn
-	byName   map[string][]*fn
-	fieldDef map[string][]definer // field name -> assignments x.f = E and keyed elements f: E
-	calls    map[string][]callsite
-	sites    []*site
+	dir       string
+	funcs     []*fn
+	byName    map[string][]*fn
+	fieldDef  map[string][]definer // field name -> assignments x.f = E and keyed elements f: E
+	calls     map[string][]callsite
+	sites     []*site
 	compTypes map[string]bool // types of the composite literals written in the package
 }
 
@@ -476,7 +476,6 @@ func reassignedAfter(f *fn, e ast.Expr, pos token.Pos) bool {
 	return found
 }
 
-
 // ---- requester identity ------------------------------------------------------------------------
 
 // Which expression supplies AccessRequest.IP (Model/C03_Origin.v, ipsrc):
@@ -654,6 +653,42 @@ func (w *ipWalk) src(f *fn, e ast.Expr, depth int) string {
 	return "SUnknown"
 }
 
+// every gin engine built under internal/: `x := gin.New()`; trusted = the same function calls x.SetTrustedProxies(...)
+// as a statement of its own body (not under an if / for / switch): an engine on which it is not called trusts the
+// forwarding headers of EVERY peer (gin's default), one on which it is called with an empty list trusts nobody
+type engineRow struct {
+	id      string
+	trusted bool
+}
+
+func ginEngines(p *pkg) []engineRow {
+	var out []engineRow
+	for _, f := range p.funcs {
+		ast.Inspect(f.decl.Body, func(n ast.Node) bool {
+			as, ok := n.(*ast.AssignStmt)
+			if !ok || len(as.Lhs) != 1 || len(as.Rhs) != 1 {
+				return true
+			}
+			c, ok := as.Rhs[0].(*ast.CallExpr)
+			if !ok || text(c.Fun) != "gin.New" {
+				return true
+			}
+			v := text(as.Lhs[0])
+			trusted := false
+			for _, st := range f.decl.Body.List {
+				if es, ok := st.(*ast.ExprStmt); ok {
+					if c2, ok := es.X.(*ast.CallExpr); ok && text(c2.Fun) == v+".SetTrustedProxies" && len(c2.Args) == 1 {
+						trusted = true
+					}
+				}
+			}
+			out = append(out, engineRow{f.id() + ":" + v, trusted})
+			return true
+		})
+	}
+	return out
+}
+
 // the carrier of a request (Model/C03_Origin.v): CHttp - it arrived as a HTTP request served by gin (its credentials
 // are httpp.Credentials(...) or the function has a *gin.Context); CTcp - a TCP connection accepted through
 // internal/protocols/proxy.Listener when <proto>TrustedProxies is set (the package builds a proxy.Listener);
@@ -691,6 +726,7 @@ func main() {
 	checkHTTPPRemoteAddr(repo)
 	type identRow struct{ id, carrier, src, note string }
 	var identRows []identRow
+	var engineRows []engineRow
 	var firstRows [][2]string
 	var dirs []string
 	filepath.Walk(filepath.Join(repo, "internal"), func(p string, info os.FileInfo, err error) error {
@@ -910,6 +946,8 @@ func main() {
 			}
 		}
 
+		engineRows = append(engineRows, ginEngines(p)...)
+
 		// requester identity of every authenticating call (everything but constant SkipAuth: true)
 		for _, s := range p.sites {
 			if s.skip == "true" {
@@ -993,6 +1031,16 @@ func main() {
 		fmt.Fprintf(&b, "  (\"%s\", (%s, %s))%s  (* %s *)\n", r.id, r.carrier, r.src, sep,
 			strings.ReplaceAll(strings.ReplaceAll(strings.ReplaceAll(r.note, "(*", "( *"), "*)", "* )"), "\"", "'"))
 	}
+	b.WriteString("].\n\n(* every gin.New() under internal/: is SetTrustedProxies called on it, unconditionally, in the same function? *)\n")
+	sort.Slice(engineRows, func(i, j int) bool { return engineRows[i].id < engineRows[j].id })
+	b.WriteString("Definition gin_engines : list (string * bool) := [\n")
+	for i, r := range engineRows {
+		sep := ";"
+		if i == len(engineRows)-1 {
+			sep = ""
+		}
+		fmt.Fprintf(&b, "  (\"%s\", %v)%s\n", r.id, r.trusted, sep)
+	}
 	b.WriteString("].\n\n(* two-step flows: attaching site -> the FindPathConf site that authenticated *)\n")
 	b.WriteString("Definition first_steps : list (string * string) := [\n")
 	for i, r := range firstRows {
@@ -1016,6 +1064,11 @@ func main() {
 		ir = append(ir, map[string]string{"id": r.id, "carrier": r.carrier, "src": r.src, "note": r.note})
 	}
 	notes["ident"] = ir
+	var er []map[string]any
+	for _, r := range engineRows {
+		er = append(er, map[string]any{"id": r.id, "trusted_set": r.trusted})
+	}
+	notes["engines"] = er
 	var rr []map[string]string
 	for _, r := range rows {
 		rr = append(rr, map[string]string{"id": r.id, "flow": r.flow, "note": r.note})
